@@ -211,6 +211,34 @@ def canon(obj):
     return hashlib.sha1(json.dumps(obj, sort_keys=True, separators=(',', ':')).encode()).hexdigest()
 
 
+class ImplHang(BaseException):
+    """raised by SIGALRM inside run_impl: a BaseException, so glom's `except Exception` clauses
+    cannot swallow it"""
+
+
+# one evaluation of the implementation on one generated case takes milliseconds; a case that does
+# not return within this budget is reported as an implementation that does not terminate on it
+CASE_BUDGET_S = int(os.environ.get('VERIF_CASE_BUDGET_S', '30'))
+
+
+def run_with_budget(fn, case, budget=None):
+    import signal
+    budget = budget or CASE_BUDGET_S
+
+    def on_alarm(signum, frame):
+        raise ImplHang()
+    try:
+        old = signal.signal(signal.SIGALRM, on_alarm)
+    except ValueError:          # not in the main thread
+        return fn(case)
+    signal.alarm(budget)
+    try:
+        return fn(case)
+    finally:
+        signal.alarm(0)
+        signal.signal(signal.SIGALRM, old)
+
+
 class Runner:
     def __init__(self, mod, tier, seed):
         self.mod, self.tier, self.seed = mod, tier, seed
@@ -223,20 +251,36 @@ class Runner:
         self.disagreements = []  # (case, verdict)
         self.errors = []
         self.impl_crashes = 0
+        self.hangs = []          # cases on which the implementation did not return within the budget
 
     def batch(self, cases):
         """run impl + driver on a batch; collect stats"""
         mod = self.mod
         ran = []
+        hung = []
         for c in cases:
+            if len(self.hangs) >= 2:
+                break            # two cases that do not return are enough; every further one costs the budget
             try:
-                ran.append(mod.run_impl(c))
+                ran.append(run_with_budget(mod.run_impl, c, getattr(mod, 'CASE_BUDGET_S', None)))
+            except ImplHang:
+                # the implementation did not return: no property states that as an outcome
+                self.hangs.append(c)
+                hc = dict(c)
+                hc['impl'] = {'hang': 'no return within %d s' % (getattr(mod, 'CASE_BUDGET_S', None) or CASE_BUDGET_S)}
+                hv = {'holds': False, 'agree': False, 'hang': True, 'branch': 'impl-hang',
+                      'why': 'the implementation did not return on this case within the per-case budget '
+                             '(cases take milliseconds on the unchanged tree)'}
+                self.evaluations += 1
+                self.hist['impl-hang'] = self.hist.get('impl-hang', 0) + 1
+                self.failures.append((hc, hv))
+                hung.append((hc, hv))
             except Exception as e:   # harness bug, not an observation
                 self.errors.append('run_impl crashed: %r on %s' % (e, json.dumps(c)[:300]))
         if not ran:
-            return []
+            return hung
         verdicts = run_driver(mod.PROP, ran)
-        out = []
+        out = list(hung)
         for c, v in zip(ran, verdicts):
             self.evaluations += 1
             if 'error' in v:
@@ -265,7 +309,7 @@ class Runner:
 
 def shrink(runner, mod, case, verdict, budget=300):
     """greedy delta-debugging: keep any smaller candidate on which the property still fails"""
-    if not hasattr(mod, 'shrink'):
+    if not hasattr(mod, 'shrink') or verdict.get('hang'):
         return case, verdict
     cur, curv = case, verdict
     probe = Runner(mod, runner.tier, runner.seed)
